@@ -207,6 +207,9 @@ def seeds(ctx):
         fa = dict(alt[2]) if alt is not None and alt[0] == 'agg' else {}
         ctx.check(fa.get('time_to_next') == depart, R, 'make_est_times|origin %s|alternate' % kind, 'the running alternate handed to the insertion carries the departure time',
                   'est_alt.time_to_next = %s' % show(fa.get('time_to_next', ('unit',)), an.names)[:100], wc)
+        if kind == 'Arrive':
+            ctx.check(fa.get('idx_prev') == ONE, R, 'make_est_times|origin Arrive|hangs off start', 'every origin starts a fresh alternate chain at start node 1 (origins are alternatives, not a sequence)',
+                      'est_alt = %s' % (show(alt, an.names)[:160] if alt is not None else None), wc)
     # ---- origin guards
     R5 = 'C15-5.origins'
     want = {'offset': False, 'tail': False, 'real': False}
